@@ -70,6 +70,30 @@ CHECKS = {
         essential_labels=['kind:collow', 'kind:colhigh', 'folded', 'op-after-fold', 'merge-same-kind', 'merge-wide-into-empty', 'add-beyond-edge-after-collapse'],
         assumptions=COMMON_ASSUMPTIONS + ["fold(M,N) model: folding is history-independent (DESIGN §2 C05); dyadic weights"],
     ),
+    'C06': dict(
+        level='exploration',
+        units=[U('^TestC06$', (4, 1200), (14, 25000)), U('^TestC06_ArbitraryWeights$', (1, 4000), (2, 100000))],
+        essential_labels=['layout:1', 'layout:2', 'layout:3', 'omit-mapping', 'prefix', 'concatenation', 'non-empty-receiver', 'both-sides', 'block:zero', 'variant:exact', 'target:collow', 'target:colhigh', 'target:paginated', 'source:paginated', 'arbitrary-weights', 'weight-changed-by-transform', 'weight-vanishes'],
+        assumptions=COMMON_ASSUMPTIONS + ["dyadic bounded weights survive the documented (w+1)-1 transform exactly; arbitrary weights are checked bit-for-bit against (w+1)-1 without being summed"],
+    ),
+    'C07': dict(
+        level='exploration',
+        units=[U('^TestC07_EncoderConforms$', (2, 2000), (6, 40000)), U('^TestC07_DecoderAcceptsGrammar$', (3, 1200), (10, 20000)), F('FuzzC07Grammar', 120)],
+        essential_labels=['direction:A', 'direction:B', 'direction:C', 'layout:1', 'layout:2', 'layout:3', 'stride:negative', 'stride:zero', 'stride:large', 'repeated-index', 'N=0-block', 'repeated-mapping-block', 'mapping-between-bins', 'mapping-after-bins', 'exact-decoder', 'target:paginated', 'target:collow', 'multi-layout', 'producer:exact-variant'],
+        assumptions=COMMON_ASSUMPTIONS + ["harness/refdec is the reading of the format documentation the streams are generated from and compared with", "indexes in generated streams are indexes of the mapping (between those of its smallest and largest indexable values) and stay within a memory-bounded cluster"],
+    ),
+    'C08': dict(
+        level='fault_enumeration',
+        units=[U('^TestC08$', (4, 60), None), U('^TestC08_Thorough$', None, (16, 1500)), F('FuzzC08', 120)],
+        essential_labels=['cut-inside-bin-block', 'cut:uvarint/n', 'cut:varint/delta', 'cut:varfloat/count', 'cut-inside:mapping', 'fault:undefined-flag', 'fault:mapping-mismatch', 'fault:mapping-missing', 'layout:1', 'layout:2', 'layout:3', 'producer:exact-variant'],
+        assumptions=COMMON_ASSUMPTIONS + ["encodings are sampled; for each sampled encoding every cut point is enumerated (and every undefined flag at every block boundary in the thorough tier)", "arbitrary garbage is not thrown at the sketch decoders: the format lets a well-formed block describe 2^63 bins, which the property does not promise to handle gracefully"],
+    ),
+    'C09': dict(
+        level='exploration',
+        units=[U('^TestC09_History$', (2, 2000), (8, 40000)), U('^TestC09_ArbitraryWeights$', (1, 3000), (4, 50000)), U('^TestC09_HandBuilt$', (1, 3000), (4, 50000))],
+        essential_labels=['mode:A', 'mode:B', 'mode:C', 'shape:sparse', 'shape:contiguous', 'shape:both', 'nil-store-message', 'negative-offset', 'custom-offset', 'target:collow', 'target:paginated', 'source:paginated', 'source:sparse', 'cleared-then-refilled'],
+        assumptions=COMMON_ASSUMPTIONS + ["google.golang.org/protobuf Marshal/Unmarshal/Equal are trusted"],
+    ),
     'C10': dict(
         level='exploration',
         units=[U('^TestC10$', (4, 500, 40), (16, 12000, 100))],
@@ -111,6 +135,12 @@ CHECKS = {
         units=[U('^TestC16_Stores$', (3, 800), (8, 25000)), U('^TestC16_Sketch$', (3, 600), (8, 20000))],
         essential_labels=['level:store', 'level:sketch', 'kind:dense', 'kind:sparse', 'kind:paginated', 'kind:collow', 'kind:colhigh', 'w<1', 'w>1', 'w=1', 'paginated-buffer-and-pages-at-reweight', 'collapsed-at-reweight', 'both-sides', 'zero-bucket', 'variant:exact'],
         assumptions=COMMON_ASSUMPTIONS + ["dyadic factors only (w in {2^k, 3, 1.5, 0.75, 5}) so that scaled weights stay exact"],
+    ),
+    'C17': dict(
+        level='exploration',
+        units=[U('^TestC17$', (4, 2500), (16, 60000))],
+        essential_labels=['relation:equal', 'relation:finer', 'relation:coarser', 'relation:aligned', 'identity', 'scale:1', 'scale:other', 'negative-side', 'variant:exact', 'shape:single-bin', 'shape:two-far-bins', 'source:paginated', 'target:dense', 'target:sparse'],
+        assumptions=COMMON_ASSUMPTIONS + ["weight tolerance 64*2^-52/min(alpha1,alpha2)*W (each proportion is a ratio of differences of nearly equal bounds)", "values in [1e-4,1e4] and scale in [1e-3,1e3]: well inside both mappings' ranges, as the property requires"],
     ),
     'C18': dict(
         level='exploration',
